@@ -18,9 +18,13 @@ def block_stores(fn):
             t = node.targets[0] if isinstance(node, ast.Assign) else node.target
             if isinstance(t, ast.Subscript) and ast.unparse(t.value) == "res":
                 pc = O.path_condition(fn, node)
-                guard = " & ".join(("" if p else "not ") + ast.unparse(e) for e, p in pc)
                 # loop context (functional drifts)
                 loop = [n for n in ast.walk(fn) if isinstance(n, ast.For) and any(x is node for x in ast.walk(n))]
+                if loop and "self.drift_functions" in ast.unparse(loop[-1].iter):
+                    # inside a loop over the drift functions there is at least one: `self.int_drift_no > 0` (= len(self.drift_functions) > 0,
+                    # the getter is checked in layout()) is implied and not a distinguishing guard
+                    pc = [(e, p) for e, p in pc if not (p and ast.unparse(e) == "self.int_drift_no > 0")]
+                guard = " & ".join(("" if p else "not ") + ast.unparse(e) for e, p in pc)
                 if loop:
                     guard = (guard + " & " if guard else "") + "for " + ast.unparse(loop[-1].iter)
                 sl = t.slice
@@ -33,6 +37,9 @@ def block_stores(fn):
 
 
 def layout(ctx, rule="R05.1"):
+    _g = ctx.prog.cls(KB, "Krige").getters.get("int_drift_no")
+    _r = [ast.unparse(x.value) for x in ast.walk(_g) if isinstance(x, ast.Return)] if _g is not None else []
+    ctx.check(_r == ["len(self.drift_functions)"], rule, KB + "::Krige.int_drift_no", "int_drift_no is the number of drift functions (used as an implied guard inside loops over them)", "int-drift-no")
     prog = ctx.prog
     mat = prog.func(KB, "Krige._get_krige_mat")
     vec = prog.func(KB, "Krige._get_krige_vecs")
